@@ -229,6 +229,7 @@ class Truncation(FunctionContract):
         l, r = vc.fresh("l", "r"), vc.fresh("r", "r")
         vc.register("truncation_left", l)
         vc.register("truncation_right", r)
+        vc.ghost["truncation"] = (l, r)
         return (l, r)
 
 
@@ -263,10 +264,12 @@ def wf_clauses(grid, h, d, prefix="", split_inc=False):
 
 
 class UniformGridInit(FunctionContract):
-    """CTMCUniformGrid.__init__ for every pair (points left, points right) in 0..3 x 0..3 (h, l, r symbolic)."""
+    """CTMCUniformGrid.__init__ for every pair (points left, points right) in 2..4 x 2..4 (h, l, r symbolic; the constructor
+    rejects a step h that is not strictly inside the truncation bounds and keeps at least the bound and the neighbour of the
+    origin on each side)."""
     prop = "C13"
     target = SP + "CTMCUniformGrid.__init__"
-    cases = tuple((nl, nr) for nl in range(0, 4) for nr in range(0, 4))
+    cases = tuple((nl, nr) for nl in range(2, 5) for nr in range(2, 5))
 
     def __init__(self):
         self.name = "CTMCUniformGrid.__init__"
@@ -293,8 +296,9 @@ class UniformGridInit(FunctionContract):
     def ensures(self, result, self_=None, h=None, **kw):
         return wf_clauses(self_, h, 1)
 
-    raises = {"ValueError": lambda **a: True}      # the 1e8-points guard
-    raises_exact = False
+    # rejected exactly when the step is not strictly inside the truncation bounds (the 1e8-points guard cannot fire for the
+    # enumerated point counts)
+    raises = {"ValueError": lambda h=None, **a: _step_outside_the_bounds(h)}
 
     def replay(self, model, clause, case):
         # native witness for the degenerate point counts: light-tailed jumps with a coarse h
@@ -303,7 +307,11 @@ class UniformGridInit(FunctionContract):
         out = None
         for eta, h in ((20.0, 0.5), (50.0, 0.5), (50.0, 0.25)):
             m = ExponentialOfHEMModel(spot=100.0, r=0.02, d=0.0, parameters=HEMParameters(sigma=0.2, p=0.5, eta1=eta, eta2=eta, intensity=1.0))
-            g = CTMCUniformGrid(h=h, model=m)
+            try:
+                g = CTMCUniformGrid(h=h, model=m)
+            except ValueError as e:
+                out = {"model": f"HEM eta1=eta2={eta}", "h": h, "rejected": str(e)}
+                continue
             ax, o = g.axes[0], g.origin_coordinate.value
             left_ok = o >= 1 and abs(ax[o - 1] + h) < 1e-12
             right_ok = o + 1 < len(ax) and abs(ax[o + 1] - h) < 1e-12
@@ -350,10 +358,22 @@ class FixedPoints(FunctionContract):
         return (bool(bad), {"axis": ax.tolist(), "origin": int(o)})
 
 
+def _step_outside_the_bounds(h):
+    from pyvc import ctx
+    t = ctx.PATH.ghost.get("truncation")
+    if t is None:
+        return False
+    l, r = t
+    return Not(And(l < -h, h < r))
+
+
 class GeometricInit(FunctionContract):
     prop = "C13"
     target = SP + "CTMCGridGeometric.__init__"
     cases = (2, 3, 4)
+
+    # a step h that is not strictly inside the truncation bounds is rejected -- exactly then
+    raises = {"ValueError": lambda h=None, **a: _step_outside_the_bounds(h)}
 
     def __init__(self):
         self.name = "CTMCGridGeometric.__init__"
@@ -377,7 +397,10 @@ class GeometricInit(FunctionContract):
         from rpylib.model.levymodel.mixed.hem import HEMParameters, ExponentialOfHEMModel
         for eta, h in ((20.0, 0.5), (50.0, 0.5), (5.0, 0.1)):
             m = ExponentialOfHEMModel(spot=100.0, r=0.02, d=0.0, parameters=HEMParameters(sigma=0.2, p=0.5, eta1=eta, eta2=eta, intensity=1.0))
-            g = CTMCGridGeometric(h=h, model=m, nb_of_points_on_each_side=case)
+            try:
+                g = CTMCGridGeometric(h=h, model=m, nb_of_points_on_each_side=case)
+            except ValueError:
+                continue
             ax, o = g.axes[0], g.origin_coordinate.value
             if not np.all(np.diff(ax) > 0):
                 return (True, {"model": f"HEM eta={eta}", "h": h, "axis": ax.tolist()})
